@@ -18,8 +18,9 @@ FINE_GRID_SIZES = [10 ** 5, 2 * 10 ** 5 + 1]   # group size x grid size beyond 1
 class ScoreColumn(BaseEstimator):
     """Prefit passthrough 'estimator': the score of a row is column 0 of X (so the generator chooses the scores)."""
 
-    def __init__(self, method="predict"):
+    def __init__(self, method="predict", out_dtype=None):
         self.method = method
+        self.out_dtype = out_dtype  # scorecards / quantised models hand out narrow integer or half-precision scores
 
     def fit(self, X, y=None, **kw):
         self.fitted_ = True
@@ -27,7 +28,13 @@ class ScoreColumn(BaseEstimator):
 
     def _s(self, X):
         A = X.values if isinstance(X, pd.DataFrame) else np.asarray(X)
-        return A[:, 0].astype(float)
+        out = A[:, 0].astype(float)
+        if self.out_dtype is None:
+            return out
+        with np.errstate(all="ignore"):
+            cast = out.astype(self.out_dtype)
+        # query points the narrow dtype cannot hold (negative for unsigned, fractional, out of range) are handed out as float64
+        return cast if bool(np.array_equal(cast.astype(float), out)) else out
 
     def predict(self, X):
         return self._s(X)
@@ -82,7 +89,7 @@ def rows_of_multiset(combo, levels=(0.0, 1.0, 2.0)):
     return g, y, s
 
 
-SCORE_FAMILIES = ["few_levels", "rationals", "gauss", "huge", "tiny_gaps", "probabilities", "constant_in_group", "ladder", "ladder"]
+SCORE_FAMILIES = ["few_levels", "rationals", "gauss", "huge", "tiny_gaps", "probabilities", "constant_in_group", "ladder", "ladder", "byte_scores"]
 
 
 def random_dataset(rng, family=None, kmax=5, nmax=40, max_levels=None, informative=None):
@@ -119,6 +126,9 @@ def random_dataset(rng, family=None, kmax=5, nmax=40, max_levels=None, informati
         s = base * (1.0 - rng.integers(0, 6, size=n) * delta)
     elif family == "probabilities":
         s = np.clip(rng.beta(0.6, 0.6, size=n), 0, 1)
+    elif family == "byte_scores":
+        # a points-based scorecard: integers 0..255 with 0 and the top of the range present (delivered in a narrow dtype, see fit_optimizer)
+        s = rng.choice(np.array([0, 1, 2, 100, 127, 128, 129, 200, 254, 255]), size=n).astype(float)
     else:
         s = rng.normal(size=n)
         a = int(rng.integers(0, k))
@@ -129,7 +139,9 @@ def random_dataset(rng, family=None, kmax=5, nmax=40, max_levels=None, informati
         # make the scores carry signal about the label (interior optima, genuinely randomised rules)
         s = np.asarray(s, dtype=float)
         spread = float(s.max() - s.min()) or 1.0
-        if family in ("few_levels", "rationals", "tiny_gaps"):
+        if family == "byte_scores":
+            s = np.clip(s + np.asarray(y) * 60.0 * (rng.random(n) < 0.7), 0, 255)
+        elif family in ("few_levels", "rationals", "tiny_gaps"):
             step = {"few_levels": 1.0, "rationals": 0.5, "tiny_gaps": 2e-9}[family]
             s = s + np.asarray(y) * step * (rng.random(n) < 0.7)
         else:
@@ -171,7 +183,17 @@ def fit_optimizer(g, y, s, constraint, objective, flip, grid_size, rng=None, hos
         yy = gen.as_vec(y, gen.pick(rng, ["list", "ndarray", "series", "df"]), rng, name="lab")
         if rng.random() < 0.5:
             Xin = pd.DataFrame(X, columns=["c%d" % j for j in range(X.shape[1])], index=gen.hostile_index(n, gen.pick(rng, gen.INDEX_KINDS), rng))
-    est = ScoreColumn().fit(X)
+    out_dtype = None
+    sv = np.asarray(s, dtype=float)
+    if rng is not None and bool(np.all(sv == np.round(sv))) and float(np.abs(sv).max()) <= 2048:
+        # integral scores: delivered by the estimator in a narrow dtype that holds them exactly (sums of two scores may not fit)
+        fits = [None, "float32", "float16", "int16", "int64"]
+        if sv.min() >= 0:
+            fits += ["uint16", "uint64"] + (["uint8", "uint8"] if sv.max() <= 255 else [])
+        if sv.min() >= -128 and sv.max() <= 127:
+            fits += ["int8"]
+        out_dtype = gen.pick(rng, fits)
+    est = ScoreColumn(out_dtype=out_dtype).fit(X)
     if rng is not None and rng.random() < 0.25:
         # configuration arriving through set_params after construction (what clone().set_params() / model selection does)
         to = ThresholdOptimizer(estimator=est, prefit=True, predict_method="predict", grid_size=int(gen.pick(rng, [2, 4, 37])),
